@@ -12,36 +12,36 @@ open Rtp Rtp.Model Rtp.Model.H264 Rtp.Model.H264.Obs Rtp.Spec.Rfc6184 Rtp.Pred
 
 abbrev Pend := Option Bytes × Option Bytes
 
-/-- units released by a list of units, and the pending pair afterwards -/
-def stepsOut (disable : Bool) : Pend → List Bytes → List Bytes × Pend
+/-- groups released by a list of (MTU, unit), and the pending pair afterwards -/
+def stepsOut (disable : Bool) : Pend → List (Nat × Bytes) → List Group × Pend
   | p, [] => ([], p)
-  | p, n :: ns =>
-    let r := stepOut disable p.1 p.2 n
+  | p, (m, n) :: ns =>
+    let r := stepOut disable m p.1 p.2 n
     let rs := stepsOut disable r.2 ns
     (r.1 ++ rs.1, rs.2)
 
-theorem stepsOut_append (disable : Bool) (p : Pend) (a b : List Bytes) :
+theorem stepsOut_append (disable : Bool) (p : Pend) (a b : List (Nat × Bytes)) :
     stepsOut disable p (a ++ b) =
       ((stepsOut disable p a).1 ++ (stepsOut disable (stepsOut disable p a).2 b).1,
        (stepsOut disable (stepsOut disable p a).2 b).2) := by
   induction a generalizing p with
   | nil => simp [stepsOut]
-  | cons n ns ih => simp [stepsOut, ih]
+  | cons n ns ih => obtain ⟨m, n⟩ := n; simp [stepsOut, ih]
 
 def pendOf (st : PayState) : Pend := (st.sps, st.pps)
 
 theorem steps_spec (disable : Bool) (mtu : Nat) (hm : 3 ≤ mtu) (hm2 : mtu < 65536)
     (nals : List Bytes) (hw : ∀ n ∈ nals, nalWF n = true) (st : PayState) (hst : StOk st) :
-    StepPlan (steps disable mtu st nals).1 (stepsOut disable (pendOf st) nals).1 ∧
-    pendOf (steps disable mtu st nals).2 = (stepsOut disable (pendOf st) nals).2 ∧
+    StepPlan (steps disable mtu st nals).1 (stepsOut disable (pendOf st) (nals.map (mtu, ·))).1 ∧
+    pendOf (steps disable mtu st nals).2 = (stepsOut disable (pendOf st) (nals.map (mtu, ·))).2 ∧
     StOk (steps disable mtu st nals).2 := by
   induction nals generalizing st with
   | nil => exact ⟨StepPlan.nil, rfl, hst⟩
   | cons n ns ih =>
     obtain ⟨h1, h2, h3⟩ := step_spec disable mtu hm hm2 st n (hw n (by simp)) hst
     obtain ⟨k1, k2, k3⟩ := ih (fun m hm' => hw m (by simp [hm'])) (step disable mtu st n).2 h3
-    have e : pendOf (step disable mtu st n).2 = (stepOut disable st.sps st.pps n).2 := h2
-    simp only [steps, stepsOut, pendOf] at *
+    have e : pendOf (step disable mtu st n).2 = (stepOut disable mtu st.sps st.pps n).2 := h2
+    simp only [steps, stepsOut, pendOf, List.map_cons] at *
     rw [← e]
     exact ⟨StepPlan.append h1 k1, k2, k3⟩
 
@@ -103,7 +103,7 @@ def callWF (c : C10.RtCall) : Prop :=
 
 theorem frags_spec (disable : Bool) (cs : List C10.RtCall) (hw : ∀ c ∈ cs, callWF c) (st : PayState)
     (hst : StOk st) :
-    StepPlan (fragsCalls disable st cs) (stepsOut disable (pendOf st) (cs.flatMap C10.RtCall.nals)).1 := by
+    StepPlan (fragsCalls disable st cs) (stepsOut disable (pendOf st) (cs.flatMap C10.RtCall.tagged)).1 := by
   induction cs generalizing st with
   | nil => exact StepPlan.nil
   | cons c cs ih =>
@@ -115,29 +115,40 @@ theorem frags_spec (disable : Bool) (cs : List C10.RtCall) (hw : ∀ c ∈ cs, c
       exact hu u hu'
     obtain ⟨h1, h2, h3⟩ := steps_spec disable c.mtu.toNat hm c.mtu.toNat_lt c.nals hnals st hst
     have ih' := ih (fun c' hc' => hw c' (by simp [hc'])) (steps disable c.mtu.toNat st c.nals).2 h3
-    simp only [fragsCalls, call_payload disable st c hb hu, List.flatMap_cons, stepsOut_append]
+    have ht : c.tagged = c.nals.map (c.mtu.toNat, ·) := by
+      simp [C10.RtCall.tagged, C10.RtCall.nals]
+    simp only [fragsCalls, call_payload disable st c hb hu, List.flatMap_cons, stepsOut_append, ht]
     rw [h2] at ih'
     exact StepPlan.append h1 ih'
 
 /-! ### hold-back at the level of units -/
 
-theorem stepsOut_disable (p : Pend) (nals : List Bytes) :
-    (stepsOut true p nals).1 = nals.filter (fun n => !isDropped n) := by
-  induction nals generalizing p with
-  | nil => rfl
-  | cons n ns ih =>
-    simp only [stepsOut, stepOut, List.filter_cons]
+theorem stepsOut_disable (p : Pend) (ts : List (Nat × Bytes)) :
+    flatOf (stepsOut true p ts).1 = (ts.map (·.2)).filter (fun n => !isDropped n) ∧
+    ∀ g ∈ (stepsOut true p ts).1, g.1 = false := by
+  induction ts generalizing p with
+  | nil => simp [stepsOut, flatOf]
+  | cons t ts ih =>
+    obtain ⟨m, n⟩ := t
+    have := ih p
+    simp only [flatOf] at this
+    simp only [stepsOut, stepOut, List.map_cons, List.filter_cons, flatOf]
     by_cases hd : isDropped n = true
-    · simp [hd, ih]
-    · simp [hd, ih]
+    · simpa [hd] using this
+    · simp only [hd, Bool.false_eq_true, if_false, if_true, List.cons_append, List.nil_append,
+        List.flatMap_cons, Bool.not_false, List.mem_cons, forall_eq_or_imp, true_and]
+      exact ⟨by rw [this.1], this.2⟩
 
-theorem stepsOut_holdback (p : Pend) (nals : List Bytes) :
-    (stepsOut false p nals).1 = holdback p.1 p.2 nals := by
-  induction nals generalizing p with
+theorem stepsOut_holdback (p : Pend) (ts : List (Nat × Bytes)) :
+    flatOf (stepsOut false p ts).1 = holdback p.1 p.2 (ts.map (·.2)) := by
+  induction ts generalizing p with
   | nil => rfl
-  | cons n ns ih =>
+  | cons t ts ih =>
+    obtain ⟨m, n⟩ := t
     obtain ⟨s, q⟩ := p
-    simp only [stepsOut, stepOut, holdback, Bool.false_eq_true, if_false]
+    simp only [stepsOut, stepOut, holdback, Bool.false_eq_true, if_false, List.map_cons, flatOf,
+      List.flatMap_append]
+    simp only [flatOf] at ih
     by_cases hd : isDropped n = true
     · simp [hd, ih]
     · simp only [hd, Bool.false_eq_true, if_false]
@@ -148,19 +159,32 @@ theorem stepsOut_holdback (p : Pend) (nals : List Bytes) :
         · simp [h8, ih]
         · simp only [h8, Bool.false_eq_true, if_false]
           cases s <;> cases q <;> simp [ih]
+          split <;> simp
 
-/-- a whole history from a new payloader: the fragments are the encoding of a legal plan that
-    carries exactly the units `delivered` says -/
+theorem flatOf_group (plan : List Item) : flatOf (plan.map Item.group) = plan.flatMap Item.nals := by
+  simp [flatOf, List.flatMap_map, Item.group]
+
+theorem tagged_snd (cs : List C10.RtCall) :
+    (cs.flatMap C10.RtCall.tagged).map (·.2) = cs.flatMap C10.RtCall.nals := by
+  induction cs with
+  | nil => rfl
+  | cons c cs ih =>
+    simp only [List.flatMap_cons, List.map_append, ih]
+    simp [C10.RtCall.tagged, C10.RtCall.nals]
+
+/-- a whole history from a new payloader: the fragments are the encoding of a legal plan, packed
+    as `stepsOut` says, that carries exactly the units `delivered` says -/
 theorem history_plan (disable : Bool) (cs : List C10.RtCall) (hw : ∀ c ∈ cs, callWF c) :
     ∃ plan : List Item, fragsCalls disable {} cs = encode plan ∧ plan.all Item.wf = true ∧
       plan.all C10.headsApply = true ∧
+      plan.map Item.group = (stepsOut disable (none, none) (cs.flatMap C10.RtCall.tagged)).1 ∧
       plan.flatMap Item.nals = delivered disable (cs.flatMap C10.RtCall.nals) := by
   obtain ⟨plan, e, w, ha, k⟩ := (frags_spec disable cs hw {} StOk.empty).ex
-  refine ⟨plan, e, w, ha, ?_⟩
-  rw [k]
+  refine ⟨plan, e, w, ha, k, ?_⟩
+  rw [← flatOf_group, k]
   cases disable with
-  | true => simp [delivered, stepsOut_disable]
-  | false => simp [delivered, stepsOut_holdback, pendOf]
+  | true => simp [delivered, (stepsOut_disable _ _).1, tagged_snd]
+  | false => simp [delivered, stepsOut_holdback, pendOf, tagged_snd]
 
 theorem callWF_of_wf (i : C10.RtInput) (h : i.wf = true) : ∀ c ∈ i.calls, callWF c := by
   intro c hc
